@@ -12,7 +12,7 @@ LEVEL = "fault_enumeration"
 def describe(tier):
     return {
         "rule": "every file of the C10 input family (quick: arity 1..4, <=2 entries; thorough: <=3 entries) is written once by IndxIO.save and then "
-        "truncated to EVERY length k in 0..len-1 (os.truncate, longest first); IndxIO.load must raise at each k. evaluations = crash points; "
+        "truncated to EVERY length k in 0..len-1 (os.truncate, longest first); IndxIO.load must raise at each k. Plus four larger files (4-17 KiB, one of exactly one page) cut at every byte. evaluations = crash points; "
         "a crash point is non-trivial when it lies beyond the 16-byte header (the prefix carries a valid magic and size word). Distinct = distinct (file bytes, k).",
         "bounds": {"cut_points": "all", "files": "C10 family"},
         "exhaustive": True,
@@ -20,8 +20,18 @@ def describe(tier):
     }
 
 
+# larger files (beyond one and two memory pages), cut at EVERY byte: a loader that treats small and large files differently,
+# or that only accepts a cut at a page boundary, is not reached by the small family
+LARGE = [
+    ([(1,), (2,)], [list(range(0, 3000)), list(range(5))], 0),
+    ([(300, 2), (7, 70000)], [list(range(0, 2200, 2)), list(range(1, 2100))], 5),
+    ([(1, 1, 1)], [list(range(1024 - 7))], 2),          # 16 + payload = exactly one 4096-byte page
+    ([(2 ** 33,)], [list(range(1500))], 1),
+]
+
+
 def blocks(tier):
-    return indx.family_blocks(tier)
+    return indx.family_blocks(tier) + [("large", {"i": i, "part": k}) for i in range(len(LARGE)) for k in range(8)]
 
 
 def tear(keys, arrays, common, acc, only_k=None):
@@ -54,7 +64,38 @@ def tear(keys, arrays, common, acc, only_k=None):
     return n, deep
 
 
+def tear_range(keys, arrays, common, acc, part, nparts):
+    """Every cut point k with k % nparts == part of one (large) file."""
+    from catii.indxio import IndxIO
+
+    path = os.path.join(indx.scratch_dir(), "L-%d.indx" % os.getpid())
+    blob = indx.lib_save(keys, arrays, common, path=path)
+    n = len(blob)
+    cnt = 0
+    for k in range(n - 1 - ((n - 1 - part) % nparts), -1, -nparts):
+        os.truncate(path, k)
+        cnt += 1
+        with open(path, "rb") as f:
+            try:
+                res = IndxIO.load(f)
+            except Exception:
+                continue
+            acc.violation("load:accepted-torn-file", {"keys": keys, "arrays": [[len(a)] for a in arrays], "large": True, "common": common, "cut": k, "length": n},
+                          "load of the first %d of %d bytes returned %d entries" % (k, n, len(res[0])))
+    return cnt, 0
+
+
 def run_block(family, p, acc):
+    if family == "large":
+        keys, arrays, common = LARGE[p["i"]]
+        keys = [tuple(k) for k in keys]
+        n, deep = tear_range(keys, arrays, common, acc, p["part"], 8)
+        acc.count("crash_points", n)
+        acc.evaluations += n
+        for j in range(n):
+            acc._keys.add(hash(("large", p["i"], p["part"], j)))
+        acc.case(("large", p["i"], p["part"]), nontrivial=False, outcome=("large", p["i"]), sample={"large_file": p["i"], "keys": keys, "row_id_lengths": [len(a) for a in arrays], "cuts": "every byte of slice %d/8" % p["part"]})
+        return
     for keys, arrays, common in indx.cases_of_block(p):
         n, deep = tear(keys, arrays, common, acc)
         key = (tuple(keys), tuple(map(tuple, arrays)), common)
@@ -72,6 +113,14 @@ def replay(case, site=None):
     from ..core import Acc
 
     acc = Acc(ID, [], stop_at_first=False)
+    if case.get("large"):
+        for keys, arrays, common in LARGE:
+            if [tuple(k) for k in keys] == [tuple(k) for k in case["keys"]]:
+                tear_range([tuple(k) for k in keys], arrays, common, acc, case["cut"] % 8, 8)
+        hits = [v for v in acc.violations if v["case"]["cut"] == case["cut"]]
+        for v in hits:
+            print("  %s :: %s" % (v["site"], v["detail"][:300]))
+        return bool(hits)
     tear([tuple(k) for k in case["keys"]], case["arrays"], case["common"], acc, only_k=case.get("cut"))
     for v in acc.violations:
         print("  %s :: %s" % (v["site"], v["detail"][:400]))
